@@ -238,6 +238,12 @@ func surgeries(b []byte, from, to int, each func(class string, m []byte)) {
 			each(fmt.Sprintf("cbor-head-1@%d", i), withHead(b, h, h.arg-1, -1))
 			each(fmt.Sprintf("cbor-head-zero@%d", i), withHead(b, h, 0, -1))
 		}
+		// a text / byte string whose content is changed in its last byte (map keys get "renamed": cert -> cers)
+		if (h.major == 2 || h.major == 3) && h.arg >= 1 && h.arg <= 64 && uint64(h.off+h.hl)+h.arg <= uint64(len(b)) {
+			m := append([]byte{}, b...)
+			m[h.off+h.hl+int(h.arg)-1] ^= 0x01
+			each(fmt.Sprintf("cbor-string-lastbyte@%d", i), m)
+		}
 		// other major type with the same argument
 		for _, mj := range []int{0, 2, 3, 4, 5} {
 			if mj != h.major {
@@ -544,6 +550,55 @@ func run(r *mon.Run) {
 				}
 			}
 			_ = ecdsa.PublicKey{}
+		}
+	}
+
+	// ---- 5b. the chain a consumer runs on a signed bundle file: Read -> NewVerifier -> VerifyExchange -> WriteTo
+	{
+		for vi, ver := range []bver.Version{bver.VersionB1, bver.VersionB2} {
+			u1, _ := url.Parse("https://example.com/a")
+			u2, _ := url.Parse("https://example.com/b")
+			b := &bundle.Bundle{Version: ver, Exchanges: []*bundle.Exchange{
+				{Request: bundle.Request{URL: u1}, Response: bundle.Response{Status: 200, Header: http.Header{"Content-Type": {"text/plain"}}, Body: []byte("body of a")}},
+				{Request: bundle.Request{URL: u2}, Response: bundle.Response{Status: 200, Header: http.Header{"Content-Type": {"text/plain"}}, Body: []byte("b")}}}}
+			if ver == bver.VersionB1 {
+				b.PrimaryURL = u1
+			}
+			date := time.Unix(1600000000, 0)
+			vu, _ := url.Parse("https://example.com/validity")
+			signer, err := signature.NewSigner(ver, idA.Chain, idA.Key, vu, date, time.Hour)
+			if err != nil {
+				continue
+			}
+			for _, e := range b.Exchanges {
+				integ, _ := e.AddPayloadIntegrity(ver, 16)
+				signer.AddExchange(e, integ)
+			}
+			b.Signatures, _ = signer.UpdateSignatures(nil)
+			var buf bytes.Buffer
+			if _, err := b.WriteTo(&buf); err != nil {
+				continue
+			}
+			file := buf.Bytes()
+			mutate(r, fmt.Sprintf("signed-bundle%d", vi), file, 0, len(file), nRandom, func(class string, m []byte) {
+				if !mine() {
+					return
+				}
+				guard(r, "bundle.Read+NewVerifier+VerifyExchange+WriteTo", class, m, len(m), func() {
+					rb, err := bundle.Read(bytes.NewReader(m))
+					if err != nil {
+						return
+					}
+					if rb.Signatures != nil {
+						if v, err := signature.NewVerifier(rb.Signatures, date.Add(time.Minute), rb.Version); err == nil {
+							for _, e := range rb.Exchanges {
+								v.VerifyExchange(e)
+							}
+						}
+					}
+					rb.WriteTo(io.Discard)
+				})
+			})
 		}
 	}
 
